@@ -112,7 +112,7 @@ def cluster(draw, g, mode2D, names):
     for i in range(n):
         name = f"o{len(names)}"
         names.append(name)
-        dims = [draw(U(0.65, 1.45)) * step for _ in range(3)]
+        dims = [draw(U(0.5, 1.05)) * step for _ in range(3)]
         k = slots[i] - (n - 1) / 2
         hx, hy = cx + k * step * math.cos(th), cy + k * step * math.sin(th)
         w = step * draw(U(0.3, 1.6))
@@ -147,8 +147,8 @@ def containers(draw, home, width, osize, mode2D):
     c = [home[i] + draw(U(-0.3, 0.3)) * width for i in range(3)]
     if mode2D:
         c[2] = 0.0
-    f = {"box": 1.6, "sph": 2.4}.get(k, 2.0)
-    big = U(f * osize + 0.4 * width, f * osize + 1.5 * width)
+    f = {"box": 1.7, "sph": 2.5}.get(k, 2.1)
+    big = U(f * osize + 0.3 * width, f * osize + 1.2 * width)
     pose = draw(st.sampled_from([[0.0, 0.0, 0.0], [0.0, 0.0, 0.0], None]))
     if pose is None:
         pose = draw(c04.poses())
@@ -188,9 +188,9 @@ def theatre(draw, g, mode2D, names, have_ego):
         # looking roughly at the stage; sometimes the edge of the view cone crosses it
         hy = math.radians(viewer["angles"][0]) / 2
         hp = math.radians(viewer["angles"][1]) / 2
-        viewer["yaw"] = round(draw(st.sampled_from([0.0, draw(U(-0.3, 0.3)), draw(U(-0.8, 0.8)) * min(hy, 1.5)])), 4)
+        viewer["yaw"] = round(draw(st.sampled_from([0.0, draw(U(-0.3, 0.3)), draw(U(-0.6, 0.6)) * min(hy, 1.5)])), 4)
         viewer["pitch"] = 0.0 if mode2D else round(
-            draw(st.sampled_from([0.0, draw(U(-0.2, 0.2)), draw(U(-0.8, 0.8)) * min(hp, 1.0)])), 4)
+            draw(st.sampled_from([0.0, draw(U(-0.2, 0.2)), draw(U(-0.6, 0.6)) * min(hp, 1.0)])), 4)
     if vk == "ego":
         vis = draw(st.sampled_from(["requireVisible", "requireVisible", "visible", "visible", "visible",
                                     "not visible"]))
@@ -299,7 +299,7 @@ def cases(draw):
                     p["prob"] = draw(st.sampled_from([0.25, 0.5, 0.75]))
                 reqs.append(p)
     ws = None
-    wk = draw(st.sampled_from(["none", "none", "box", "rect", "tight"]))
+    wk = draw(st.sampled_from(["none", "none", "box", "rect", "tight", "notched", "notched"]))
     xs = [0.0 - 20, (ngroups - 1) * SPACING + 20]
     if wk == "box" and not mode2D:
         ws = {"k": "box", "dims": [xs[1] - xs[0], 60.0, 40.0], "ypr": [0.0, 0.0, 0.0],
@@ -316,6 +316,30 @@ def cases(draw):
         # theatres must still fit: fixed objects outside the workspace make the program invalid
         if any(g["kind"] == "theatre" and g["centre"][1] - 2 < edge for g in groups):
             ws = None
+    elif wk == "notched" and cl:
+        # a hole-free, non-convex workspace: a narrow slot is cut from the far edge into the
+        # first cluster, and one object of that cluster is a long thin upright box that can lie
+        # across the slot with all four corners inside the workspace
+        gr = next(g for g in groups if g["kind"] == "cluster")
+        cx, cy = gr["centre"][0], gr["centre"][1]
+        step = gr["step"]
+        nw = draw(U(0.4, 1.5))
+        ybot = cy - draw(U(0.0, 1.5)) * step
+        X = xs[1] - xs[0]
+        ws = {"k": "polygon", "occ": [[1, 1], [1, 0], [1, 1]],
+              "cuts": [[0.0, (cx - nw / 2 - xs[0]) / X, (cx + nw / 2 - xs[0]) / X, 1.0],
+                       [0.0, (ybot + 25.0) / 60.0, 1.0]],
+              "dims": [X, 60.0], "pos": [xs[0], -25.0], "z": 0.0, "zext": 4.0}
+        o = gr["objs"][0]
+        o["shape"] = {"k": "box"}
+        o["dims"] = [round(step * draw(U(2.0, 5.0)), 3), round(draw(U(0.2, 0.6)), 3), 0.5]
+        a = draw(U(-math.pi, math.pi))
+        o["yaw"], o["pitch"], o["roll"] = rng(a, a + draw(U(0.5, 3.0))), const(0.0), const(0.0)
+        o["pos"] = [rng(cx - 2 * step, cx + 2 * step), rng(cy - 2 * step, cy + 2 * step), o["pos"][2]]
+        o["allowCollisions"] = True
+        o.pop("container", None)
+        if mode2D:
+            o["pos"][2] = const(0.0)
     needs_ws = any(o.get("vis", "").startswith("not visible") for g in groups for o in g["objs"])
     if ws is None and needs_ws:
         # `not visible from` needs a workspace or container to sample from
@@ -331,7 +355,8 @@ def cases(draw):
     ops = []
     for _ in range(nops):
         ops.append(draw(st.sampled_from([["gen"], ["gen"], ["gen"], ["gen"], ["batch", 2], ["batch", 3],
-                                         ["basic"], ["weighted"]])))
+                                         ["basic"], ["weighted", 10], ["weighted", 30],
+                                         ["weighted", 100]])))
     times = [draw(st.sampled_from([1e-4, 1e-3, 1e-3, 1e-2, 0.1, 1.0, 10.0]))
              for _ in range(draw(st.integers(3, 24)))]
     return {"mode2D": mode2D, "groups": groups, "reqs": reqs, "param": have_param, "workspace": ws,
@@ -871,7 +896,7 @@ def judge(case):
                     out.cls("op:switch-to-basic")
                     continue
                 else:
-                    sc.setSampleChecker(WAC())
+                    sc.setSampleChecker(WAC(bufferSize=op[1]) if len(op) > 1 else WAC())
                     out.cls("op:switch-to-weighted")
                     continue
             except RejectionException:
